@@ -632,7 +632,7 @@ func c06Capacity(c *Ctx) {
 		c.Ok(c.fn(fn), c.P.FuncPos(fn), "semaphore = make(chan struct{}, maxConcurrency)")
 	}
 	ix := BuildIndex(c.P)
-	ws := ix.Writers(FieldRef{Type: "bulkhead", Pkg: "bulkhead", Field: "semaphore"})
+	ws := ix.Writers(FieldRef{Type: "bulkhead", Pkg: "bulkhead", Field: actualField("bulkhead", "bulkhead", "semaphore")})
 	if len(ws) != 1 || ws[0] != fn {
 		var ns []string
 		for _, w := range ws {
@@ -659,7 +659,7 @@ func c06ChannelOwner(c *Ctx) {
 					continue
 				}
 				fr, okf := fieldRefOf(fa.X.Type(), fa.Field)
-				if !okf || fr.Pkg != "bulkhead" || fr.Field != "semaphore" {
+				if !okf || fr.Pkg != "bulkhead" || fr.Type != "bulkhead" || fr.Field != actualField("bulkhead", "bulkhead", "semaphore") {
 					continue
 				}
 				for _, ld := range *fa.Referrers() {
